@@ -63,13 +63,22 @@ indices) gets the zero-diagonal matrix and the caller's weights. -/
 def smoothCovPS (S : (ℕ → ℕ → ℚ) → (ℕ → ℕ → ℚ) → ℕ → ℕ → ℚ) (M : ℕ → ℕ → ℚ) : ℕ → ℕ → ℚ :=
   S (zeroDiag M) (psWeights M)
 
-/-- `.covariance(method_smoothing="LP")` of dense data: sample covariance → smoother → `(C+Cᵀ)/2`. -/
-def covSmoothedLP (S : List (ℕ × ℕ × ℚ) → ℕ → ℕ → ℚ) (N m : ℕ) (X : ℕ → ℕ → ℚ) : ℕ → ℕ → ℚ :=
-  symmetrise (smoothCovLP S m (cov N 1 X))
+/-- The data whose cross-products are taken when a smoothing method is requested:
+`data.center(method_smoothing=…)` subtracts the *smoothed* sample mean `Sm (colMean N X)`
+(`Sm` = the mean smoother, any function). -/
+def centerSmoothed (Sm : (ℕ → ℚ) → ℕ → ℚ) (N : ℕ) (X : ℕ → ℕ → ℚ) (i j : ℕ) : ℚ :=
+  X i j - Sm (colMean N X) j
+
+/-- `.covariance(method_smoothing="LP")` of dense data: centring with the smoothed mean →
+`XcᵀXc/(n−1)` → covariance smoother → `(C+Cᵀ)/2`. -/
+def covSmoothedLP (Sm : (ℕ → ℚ) → ℕ → ℚ) (S : List (ℕ × ℕ × ℚ) → ℕ → ℕ → ℚ) (N m : ℕ)
+    (X : ℕ → ℕ → ℚ) : ℕ → ℕ → ℚ :=
+  symmetrise (smoothCovLP S m (covOf N 1 (centerSmoothed Sm N X)))
 
 /-- `.covariance(method_smoothing="PS")`. -/
-def covSmoothedPS (S : (ℕ → ℕ → ℚ) → (ℕ → ℕ → ℚ) → ℕ → ℕ → ℚ) (N : ℕ) (X : ℕ → ℕ → ℚ) : ℕ → ℕ → ℚ :=
-  symmetrise (smoothCovPS S (cov N 1 X))
+def covSmoothedPS (Sm : (ℕ → ℚ) → ℕ → ℚ) (S : (ℕ → ℕ → ℚ) → (ℕ → ℕ → ℚ) → ℕ → ℕ → ℚ) (N : ℕ)
+    (X : ℕ → ℕ → ℚ) : ℕ → ℕ → ℚ :=
+  symmetrise (smoothCovPS S (covOf N 1 (centerSmoothed Sm N X)))
 
 /-! ### `np.interp` -/
 
